@@ -564,17 +564,16 @@ func vcDBSwap(d *sql.SwappableDB, path string, fkConstraints, walEnabled bool) e
 		return errors.New("invalid SQLite data")
 	}
 	e := vcEnvCur
-	n := vcFS.nodes[path]
-	if len(n.data) != len(vcDBMagic)+4 {
+	st, _, ok := vcDecodeDB(vcFS.nodes[path].data)
+	if !ok {
 		return vcErrBadData
 	}
-	t := n.data[len(vcDBMagic):]
 	vcOsRemove(e.dbPath)
 	vcOsRemove(e.walPath)
 	if err := vcOsRename(path, e.dbPath); err != nil {
 		return err
 	}
-	e.mainSt = vcState{lin: int(t[0]), p: [2]int{int(t[2]), int(t[3])}}
+	e.mainSt = st
 	e.lin = e.mainSt.lin
 	e.walHas = [2]bool{}
 	e.mt++
@@ -593,29 +592,29 @@ func vcCreateTemp(dir, pattern string) (*os.File, error) {
 // db.ReplayWAL: the WAL tokens are folded into the database token in the given order and removed.
 func vcReplayWAL(path string, wals []string, deleteMode bool) error {
 	n, ok := vcFS.nodes[path]
-	if !ok || !vcIsValidSQLiteFile(path) || len(n.data) != len(vcDBMagic)+4 {
+	if !ok || !vcIsValidSQLiteFile(path) {
+		return errors.New("verif: invalid database file " + path)
+	}
+	st, seq, ok := vcDecodeDB(n.data)
+	if !ok {
 		return errors.New("verif: invalid database file " + path)
 	}
 	if _, ok := vcFS.nodes[path+"-wal"]; ok {
 		return errors.New("verif: WAL already exists")
 	}
-	d := append([]byte(nil), n.data...)
-	t := d[len(vcDBMagic):]
 	for _, wp := range wals {
 		wn, ok := vcFS.nodes[wp]
-		if filepath.Dir(wp) != filepath.Dir(path) || !ok || !vcIsValidSQLiteWALFile(wp) || len(wn.data) != len(vcWALMagic)+6 {
+		if filepath.Dir(wp) != filepath.Dir(path) || !ok || !vcIsValidSQLiteWALFile(wp) {
 			return errors.New("verif: invalid WAL file " + wp)
 		}
-		w := wn.data[len(vcWALMagic):]
-		for i := 0; i < 2; i++ {
-			if w[2+2*i] == 1 {
-				t[2+i] = w[3+2*i]
-			}
+		_, wseq, ok := vcFoldWAL(&st, wn.data)
+		if !ok {
+			return errors.New("verif: invalid WAL file " + wp)
 		}
-		t[1] = w[1]
+		seq = wseq
 		vcFS.del(wp)
 	}
-	n.data = d
+	n.data = vcDBBytes(st, seq)
 	return nil
 }
 
